@@ -1244,4 +1244,7 @@ def run(chk):
         if over:
             chk.violation(r_as, key + ":default", "assign_deck (%s): a defaulted deck entry (n*) overwrites a cell whose status is %s, i.e. a cell that already has a value: what an earlier ADD / MULTIPLY / MINVALUE / OPERATE or the top-layer distribution left there is reset to the keyword default by a later assignment that merely defaults the cell" % (where, over), ad["file"], n["l"])
 
+    from verif import fallthrough
+    fallthrough.run(chk, "C12", floor=2)
+
     chk.assumptions += ["role table in rules/C12.py: FieldData::data/value_status are per active cell, global_* per grid cell, deck_* per input-box cell; Box::global_index_list() stores the global index in .active_index (documented)"]
